@@ -17,7 +17,9 @@ def isQClass (field : Str) : Bool :=
   ((Generated.byQValue ++ Generated.byEncoding).map fun n => canonicalHeaderKey n.toList).contains field
 
 /-- members of all Vary field lines, canonical field names -/
-def varyMembers (hd : Header) : List Str := (Spec.listMembers hd sVary).map canonicalHeaderKey
+def varyMembers (hd : Header) : List Str :=
+  -- Vary is a list of field NAMES ("*" / 1#field-name): there is no quoted-string in it, a comma always separates
+  ((((Header.values hd sVary).flatMap fun v => splitOnComma v []).map trimString).filter (!·.isEmpty)).map canonicalHeaderKey
 
 /-- served from the store in exchange n without a 304 in that exchange -/
 def Ex.servedUnvalidated (h : Hist) (x : Ex) : Bool := x.fromStore && !x.got304 h
